@@ -272,6 +272,7 @@ class SpellConsumer(Consumer):
                 st, val = guarded(run)
                 self.counters['parses'] += 1
                 case = dict(s=s, argspec=spec, spelling=label, mode=mode)
+                legacyp = 'MacroStandardArgsParser' in label
                 if st == 'exc' and isinstance(val, LatexWalkerParseError):
                     i = dict(ok=False, pos=(-1 if val.pos is None else val.pos), parse_error=True)
                 elif st != 'ok':
@@ -279,10 +280,14 @@ class SpellConsumer(Consumer):
                     return
                 else:
                     i = dict(ok=True, v=proj.V(val))
-                legacyp = 'MacroStandardArgsParser' in label
                 if m['ok'] and i['ok'] and m['v'] == i['v']:
                     continue
                 if (not m['ok']) and (not i['ok']) and m['pos'] == i['pos']:
+                    continue
+                if legacyp and (not m['ok']) and (not i['ok']):
+                    # the property asks that the legacy spelling fails exactly when the new one fails; the legacy argument
+                    # parser re-raises nested errors from where its own call started, so the reported position may differ
+                    self.counters['legacy_error_position_differs'] += 1
                     continue
                 if legacyp and not m['ok'] and res['what'] == 'expr_closing_group' and i['ok']:
                     self.counters['legacy_empty_result'] += 1     # documented empty result (strict_braces=False)
